@@ -24,7 +24,7 @@ func init() {
 	Register(&Rule{
 		ID:    "R-SIBLING",
 		Doc:   "feature multisets (normalised callees, comparisons with constants by operator and constant class — zero, type minimum/maximum, byte literal —, conversions by direction) of the members of each sibling family are compared with the family's reference member; differences must be in the confirmed table (family, member, feature) with a reason; a member that loses or gains a check, a helper call or an error constructor relative to its siblings is reported",
-		Props: []string{"C02", "C01", "C03", "C07", "C12"},
+		Props: []string{"C02", "C01", "C03", "C07", "C12", "C14"},
 		Min:   map[string]int{"C02": 10, "C01": 8, "C03": 8, "C07": 2, "C12": 3},
 		Run:   runSibling,
 	})
@@ -42,7 +42,7 @@ var sibFamilies = []sibFamily{
 	{"json-decode-int-wide", []string{"C02"}, []string{"json.(decoder).decodeInt64", "json.(decoder).decodeInt", "json.(decoder).decodeUint64", "json.(decoder).decodeUint", "json.(decoder).decodeUintptr"}},
 	{"json-decode-float", []string{"C02"}, []string{"json.(decoder).decodeFloat64", "json.(decoder).decodeFloat32"}},
 	{"json-decode-map-string", []string{"C02"}, []string{"json.(decoder).decodeMapStringString", "json.(decoder).decodeMapStringInterface", "json.(decoder).decodeMapStringRawMessage", "json.(decoder).decodeMapStringBool", "json.(decoder).decodeMapStringStringSlice"}},
-	{"json-encode-map-string", []string{"C01"}, []string{"json.(encoder).encodeMapStringString", "json.(encoder).encodeMapStringRawMessage", "json.(encoder).encodeMapStringBool", "json.(encoder).encodeMapStringStringSlice"}},
+	{"json-encode-map-string", []string{"C01", "C14"}, []string{"json.(encoder).encodeMapStringString", "json.(encoder).encodeMapStringRawMessage", "json.(encoder).encodeMapStringBool", "json.(encoder).encodeMapStringStringSlice"}},
 	{"json-encode-int", []string{"C01"}, []string{"json.(encoder).encodeInt8", "json.(encoder).encodeInt16", "json.(encoder).encodeInt32", "json.(encoder).encodeInt64", "json.(encoder).encodeInt"}},
 	{"json-encode-uint", []string{"C01"}, []string{"json.(encoder).encodeUint8", "json.(encoder).encodeUint16", "json.(encoder).encodeUint32", "json.(encoder).encodeUint64", "json.(encoder).encodeUint", "json.(encoder).encodeUintptr"}},
 	{"proto-size-varint-signed", []string{"C03"}, []string{"proto.sizeOfInt32", "proto.sizeOfInt64"}},
